@@ -208,3 +208,29 @@ def check(chk):
         chk.judge(fresh, 'C22.copy', c_, 'shuffle(%s) works on a copy made in this call' % src(a_),
                   'the list returned by get_replicas is the token map\'s cached object: shuffling it in place destroys the ring order for every later plan (also of policies that do '
                   'not shuffle) and lets two concurrent plans see a replica twice or not at all')
+
+    # "a host" in a plan is an endpoint (address and port): two nodes that share an address are two hosts
+    chk.rule('C22.identity', 'Host.__eq__ compares the endpoints of two Host objects (address and port), Host.__hash__ hashes the endpoint')
+    from ..sem import flow_of as _flow22
+    pl_ = chk.repo.mod('cassandra/pool.py')
+    heq = pl_.func('Host.__eq__')
+    g22, f22 = _flow22(heq)
+    rets22 = [n for n in g22.stmt_nodes() if n.kind == 'return' and n.ast.value is not None]
+    ok22 = bool(rets22)
+    seen_host_arm = False
+    for n in rets22:
+        for fa, _c in f22.at(n):
+            if fa.knows('isinstance(other, Host)') is True:
+                seen_host_arm = True
+                from ..sem import resolve as _res22
+                if src(_res22(heq, n.ast.value)) not in ('self.endpoint == other.endpoint', 'other.endpoint == self.endpoint'):
+                    ok22 = False
+            elif fa.knows('isinstance(other, Host)') is None:
+                ok22 = False
+    chk.judge(ok22 and seen_host_arm, 'C22.identity', heq, 'two Host objects are equal iff their endpoints are',
+              'Host.__eq__ no longer compares endpoints for two hosts (%s): nodes that share an address on different ports compare equal, so `host not in replicas` drops a distinct '
+              'co-located node from the token-aware plan and replica lists lose co-located replicas' % [src(n.ast.value)[:50] for n in rets22])
+    hh = pl_.func('Host.__hash__')
+    chk.judge([src(r.value) for r in body_walk(hh) if isinstance(r, ast.Return)] == ['hash(self.endpoint)'], 'C22.identity', hh, 'Host.__hash__ = hash(self.endpoint)', 'hash and equality of Host disagree')
+
+
